@@ -3,13 +3,32 @@ import lvlib
 from gen import litmus, families
 
 
+def unsync_family():
+    """the non-atomic view of atomics (`unsync_load`, `with_mut`) against atomic accesses of another thread.  The verdict
+    follows from the shape alone: the parent's access is unordered with the child's iff it sits between spawn and join
+    (in every execution), and the two conflict iff one of them writes (`unsync_load` only conflicts with writes,
+    `with_mut` with every access).  [(program, a race must be reported)]"""
+    out = []
+    child = {"ld 0 rlx": False, "ld 0 acq": False, "st 0 1 rlx": True, "st 0 1 rel": True, "fadd 0 1 ar": True, "swap 0 2 sc": True}
+    for c, writes in child.items():
+        for u in ("uld 0", "wmut 0 5"):
+            conflict = writes or u.startswith("wmut")
+            out.append((f"cfg x=1 | T0: spawn 1; {u}; join 1 | T1: {c}", conflict))
+            out.append((f"cfg x=2 | T0: spawn 1; st 1 1 rlx; {u}; join 1 | T1: {c}", conflict))
+            out.append((f"cfg x=1 | T0: spawn 1; join 1; {u} | T1: {c}", False))
+            out.append((f"cfg x=1 | T0: {u}; spawn 1; join 1 | T1: {c}", False))
+            out.append((f"cfg x=1 | T0: spawn 1; {c}; join 1 | T1: {u}", conflict))
+    return out
+
+
 def run(ctx):
     ctx.prove(ctx.theorems())
     ctx.build_harness()
     atomic = litmus.race_family(ctx.seed, ctx.quick)
     from gen import corpus
     sync = list(dict.fromkeys(corpus.corpus('C04') + families.race_sync_family(ctx.seed, ctx.quick)))
-    programs = atomic + sync
+    unsync = unsync_family()
+    programs = atomic + sync + [p for p, _ in unsync]
     ctx.assumptions.append("happens-before of the reference semantics: Spec/RC11.lean for atomics and fences, the "
                            "textbook vector clocks of Spec/SC.lean for locks, channels, notify, park/unpark, join")
 
@@ -17,13 +36,25 @@ def run(ctx):
         f = ctx.rc11_check(atomic, impl, lower=True, upper=True, races=True)
         f += [x for x in ctx.sc_check(sync, impl, 60000 if ctx.quick else 400000)
               if x[2].startswith("causality") or x[1] == "abort"]
+        for p, race in unsync:
+            its, done = lvlib.iterations(impl.get(p, []))
+            if not done:
+                continue
+            racy = done[1].startswith("causality")
+            if race and not racy:
+                f.append((p, "missed_failure", "causality (the unsynchronised access and the other thread's conflicting "
+                          "atomic access are unordered in every execution)"))
+            elif racy and not race:
+                f.append((p, "forbidden", "causality (the two accesses are ordered by spawn/join or do not conflict)"))
         return f
 
     ctx.std_flow(programs, 5000 if ctx.quick else 50000, "safety", failures,
                  "a cell handed from one thread to another through release/acquire atomics, fences, RMW chains (1-2 "
                  "hops; orderings present, weakened or absent) judged by RC11, and through mutex, rwlock, channel, "
                  "notify, park/unpark and join judged by the reference interleaving semantics; the run must end with "
-                 "a causality panic iff some reference execution has two conflicting unordered accesses; "
+                 "a causality panic iff some reference execution has two conflicting unordered accesses; unsync_load / "
+                 "with_mut of an atomic against atomic accesses of the other thread, before / between / after spawn and join "
+                 "(verdict fixed by the shape); "
                  "non-trivial = the program has a cell accessed by two threads",
                  nontrivial_fn=lambda p, its, done: "crd" in p or "cwr" in p)
     path_witnesses(ctx)
